@@ -789,7 +789,7 @@ def f_stddev(args):
     if nums is None or not nums:
         return None
     if len(nums) < 2:
-        raise Undecided("sample standard deviation of a single number (0/0)")
+        return None  # table 76 examples: stddev([47]) = null, stddev(47) = null
     n = Decimal(len(nums))
     mean = HI.divide(_exact_sum(nums), n)
     ss = Decimal(0)
@@ -1110,3 +1110,100 @@ def reference(fname, args):
     if all(a is None for a in amb.alts):
         return None
     return amb
+
+
+# ------------------------------------------------------------------------------------------------
+# the examples printed in DMN 1.3 tables 72-76: the reference must reproduce every one of them
+# ------------------------------------------------------------------------------------------------
+def _d(x):
+    return Decimal(str(x))
+
+
+def _l(*xs):
+    return [(_d(x) if isinstance(x, (int, float)) and not isinstance(x, bool) else x) for x in xs]
+
+
+SPEC_EXAMPLES = [
+    ("substring", ["foobar", _d(3)], "obar"),
+    ("substring", ["foobar", _d(3), _d(3)], "oba"),
+    ("substring", ["foobar", _d(-2), _d(1)], "a"),
+    ("substring", ["\U0001F40Eab", _d(2)], "ab"),
+    ("string length", ["foo"], _d(3)),
+    ("string length", ["\U0001F40Eab"], _d(3)),
+    ("substring before", ["foobar", "bar"], "foo"),
+    ("substring before", ["foobar", "xyz"], ""),
+    ("substring after", ["foobar", "ob"], "ar"),
+    ("substring after", ["", "a"], ""),
+    ("replace", ["abcd", "(ab)|(a)", "[1=$1][2=$2]"], "[1=ab][2=]cd"),
+    ("contains", ["foobar", "of"], False),
+    ("starts with", ["foobar", "fo"], True),
+    ("ends with", ["foobar", "r"], True),
+    ("matches", ["foobar", "^fo*b"], True),
+    ("split", ["John Doe", "\\s"], ["John", "Doe"]),
+    ("split", ["a;b;c;;", ";"], ["a", "b", "c", "", ""]),
+    ("list contains", [_l(1, 2, 3), _d(2)], True),
+    ("count", [_l(1, 2, 3)], _d(3)),
+    ("min", [_l(1, 2, 3)], _d(1)),
+    ("min", _l(1, 2, 3), _d(1)),
+    ("max", [_l(1, 2, 3)], _d(3)),
+    ("max", _l(1, 2, 3), _d(3)),
+    ("min", [_l(1)], _d(1)),
+    ("min", [[]], None),
+    ("sum", [_l(1, 2, 3)], _d(6)),
+    ("sum", _l(1, 2, 3), _d(6)),
+    ("sum", [[]], None),
+    ("mean", [_l(1, 2, 3)], _d(2)),
+    ("mean", [[]], None),
+    ("all", [[False, None, True]], False),
+    ("all", [True], True),
+    ("all", [[True]], True),
+    ("all", [[]], True),
+    ("all", [_d(0)], None),
+    ("sublist", [_l(4, 5, 6), _d(1), _d(2)], _l(4, 5)),
+    ("append", [_l(1), _d(2), _d(3)], _l(1, 2, 3)),
+    ("concatenate", [_l(1, 2), _l(3)], _l(1, 2, 3)),
+    ("insert before", [_l(1, 3), _d(1), _d(2)], _l(2, 1, 3)),
+    ("remove", [_l(1, 2, 3), _d(2)], _l(1, 3)),
+    ("reverse", [_l(1, 2, 3)], _l(3, 2, 1)),
+    ("index of", [_l(1, 2, 3, 2), _d(2)], _l(2, 4)),
+    ("union", [_l(1, 2), _l(2, 3)], _l(1, 2, 3)),
+    ("distinct values", [_l(1, 2, 3, 2, 1)], _l(1, 2, 3)),
+    ("flatten", [[_l(1, 2), [_l(3)], _d(4)]], _l(1, 2, 3, 4)),
+    ("median", _l(8, 2, 5, 3, 4), _d(4)),
+    ("median", [_l(6, 1, 2, 3)], _d("2.5")),
+    ("median", [[]], None),
+    ("stddev", _l(2, 4, 7, 5), Approx(Decimal("2.081665999466132735282297706979931"), Decimal("1E-30"))),
+    ("stddev", [_l(47)], None),
+    ("stddev", _l(47), None),
+    ("stddev", [[]], None),
+    ("mode", _l(6, 3, 9, 6, 6), _l(6)),
+    ("mode", [_l(6, 1, 9, 6, 1)], _l(1, 6)),
+    ("mode", [[]], []),
+    ("sort", [_l(3, 1, 4, 5, 2), Opaque("function", {"feel": "function(x,y) x < y"}, tag="lt")], _l(1, 2, 3, 4, 5)),
+    ("get value", [Ctx([("key1", "value1")]), "key1"], "value1"),
+    ("get value", [Ctx([("key1", "value1")]), "unexistent-key"], None),
+    ("get entries", [Ctx([("key1", "value1"), ("key2", "value2")])], [Ctx([("key", "key1"), ("value", "value1")]), Ctx([("key", "key2"), ("value", "value2")])]),
+    ("number", ["1 000,0", " ", ","], _d("1000.0")),
+    ("number", ["1,000.0", ",", "."], _d("1000.0")),
+    ("string", [_d("1.1")], "1.1"),
+    ("string", [None], None),
+    ("not", [True], False),
+    ("not", [None], None),
+]
+
+
+def selftest():
+    """Returns the list of specification examples the reference does not reproduce (must be empty)."""
+    bad = []
+    for fname, args, want in SPEC_EXAMPLES:
+        got = reference(fname, args)
+        if got is UNDECIDED:
+            bad.append("%s%s: undecided" % (fname, show(args)))
+            continue
+        if isinstance(want, Approx):
+            ok = isinstance(got, Approx) and (got.exact - want.exact).copy_abs() <= want.tol
+        else:
+            ok = agrees(got, want)
+        if not ok:
+            bad.append("%s%s: reference %s, specification %s" % (fname, show(args), show(got), show(want)))
+    return bad
